@@ -26,6 +26,10 @@ def snake(name):
     return re.sub(r'(?<!^)(?=[A-Z])', '_', name).lower()
 
 
+def snake_rev(x):
+    return ''.join(w.capitalize() for w in x.split('_'))
+
+
 def run(ctx):
     b = ctx.bin
     if b is None:
@@ -34,23 +38,28 @@ def run(ctx):
     m = ctx.fn('bin', 'main', 'C16.anchor')
     # ---------------- (1) tables
     rule = 'C16.table-discount'
-    f = ctx.fn('bin', 'Discount::into_params', rule)
-    if f is not None:
-        n = 0
+    # wherever the mapping lives (Discount::into_params, or inlined into main): every call of a RegretParams
+    # preset that is selected by a Discount variant must be the like-named one
+    n = 0
+    PRESET_NAMES = {'vanilla', 'lcfr', 'cfr_plus', 'dcfr', 'dcfr_prune'}
+    for f in b.non_test_fns():
         for bi, t, p in f.calls():
-            if 'RegretParams' not in p:
+            if 'RegretParams' not in p or short(p) not in PRESET_NAMES:
                 continue
-            vs = [c for c in f.conds(bi) if c['kind'] == 'variant']
-            if not vs or len(vs[-1]['variants']) != 1:
+            vs = [c for c in f.conds(bi) if c['kind'] == 'variant' and set(c['variants']) <= {snake_rev(x) for x in PRESET_NAMES}]
+            if not vs:
+                continue
+            ctx.touch(f)
+            if len(vs[-1]['variants']) != 1:
                 ctx.bad(rule, '%s:%s' % (rule, short(p)), 'each preset is selected by exactly one Discount variant', f.where(bi), 'guards: %s' % [v['variants'] for v in vs])
                 continue
             n += 1
             v = vs[-1]['variants'][0]
             ctx.verdict(snake(v) == short(p), rule, '%s:%s' % (rule, v), 'Discount::X selects RegretParams::x (same name)', f.where(bi), 'Discount::%s -> RegretParams::%s' % (v, short(p)),
                         breaks='-d selects another preset than it names')
-        nvar = len(b.adts.get('Discount', []))
-        if n < 5 or n != nvar:
-            ctx.anchor_lost(rule, 'Discount::into_params arms', 'found %d arms for %d variants' % (n, nvar))
+    nvar = len(b.adts.get('Discount', []))
+    if n < 5 or n != nvar:
+        ctx.anchor_lost(rule, 'Discount -> RegretParams preset arms', 'found %d arms for %d variants' % (n, nvar))
     if m is None:
         return
     rule = 'C16.table-method'
@@ -128,12 +137,30 @@ def run(ctx):
         for i, fld, flag in ((3, 'max_regret', '-r'), (4, 'parallel', '-p')):
             ctx.verdict(field_of_args(args[i]) == fld, rule, '%s:%s' % (rule, fld), 'solve() argument %d is %s (args.%s)' % (i, flag, fld), m.where(bi), 'argument %s' % facts.show(args[i]), breaks='%s is wired to another parameter' % flag)
         par = strip_refs(args[5])
-        p_ok = par[0] == 'agg' and par[1].endswith('Option::Some') and q.is_call(strip_refs(par[2][0]), 'into_params') and field_of_args(strip_refs(par[2][0])[2][0]) == 'discount'
+        inner = strip_refs(par[2][0]) if par[0] == 'agg' and par[1].endswith('Option::Some') and par[2] else None
+        p_ok = inner is not None and q.is_call(inner, 'into_params') and field_of_args(inner[2][0]) == 'discount'
+        if inner is not None and not p_ok and inner[0] == 'var':
+            # the mapping inlined into main: every definition is a preset selected by a variant of args.discount
+            vals = q.multi_def_values(m, inner[1])
+            p_ok = bool(vals) and all(v[0] == 'call' and 'RegretParams' in v[1] and any(c['kind'] == 'variant' and field_of_args(c['a']) == 'discount' for c in cs) for _, cs, v in vals)
         ctx.verdict(p_ok, rule, rule + ':discount', 'solve() gets Some(args.discount.into_params())', m.where(bi), 'argument %s' % facts.show(par)[:60])
     tc = [(bi, t, e) for bi, t, e in q.calls_named(m, 'truncate') if 'Strategies' in e[1]]
     if not tc:
         ctx.anchor_lost(rule, 'main: Strategies::truncate call')
     for bi, t, e in tc:
+        # the clip step is unconditional: only -c itself may decide whether it runs
+        extra = []
+        for c in m.conds(bi):
+            if c['kind'] == 'variant':
+                continue
+            sides = [x for x in (c.get('a'), c.get('b')) if x is not None]
+            fields = {y[2] for side in sides for y in facts.walk(side) if y[0] == 'field' and not y[2].isdigit()}
+            calls_ = [y for side in sides for y in facts.walk(side) if y[0] == 'call']
+            if fields <= {'clip_threshold'} and not calls_:
+                continue
+            extra.append('%s(%s, %s) edge %s' % (c['kind'], facts.show(c['a'])[:40], facts.show(c['b'])[:30] if c.get('b') is not None else '', c.get('truth')))
+        ctx.verdict(not extra, rule, rule + ':clip-unconditional', 'with a clip threshold the pruned profile is always evaluated and compared: the clip step is guarded by nothing but -c itself', m.where(bi),
+                    'guards on the truncate call: %s' % extra, breaks='the pruned profile is not printed although its regret is strictly lower (e.g. when -r was reached)')
         x = strip_refs(e[2][1])
         ctx.verdict(x[0] == 'field' and x[2] == 'clip_threshold', rule, rule + ':clip-threshold', 'truncate() gets -c (args.clip_threshold)', m.where(bi), 'argument %s' % facts.show(x))
 
